@@ -189,9 +189,12 @@ func TestPropAccessorRoundTrip(t *testing.T) {
 					}
 				}
 				used[num] = true
-				ntx := rapid.SampledFrom([]int{0, 0, 1, 2, 3, 5, 12, 40}).Draw(rt, "ntx")
-				if ntx == 40 && !stats.Thorough() {
+				ntx := rapid.SampledFrom([]int{0, 0, 1, 2, 3, 5, 12, 40, 0, 1, 2, 3, 5, 12, 23, 24, 25, 256, 257}).Draw(rt, "ntx")
+				if (ntx == 40 || ntx >= 256) && !stats.Thorough() && rapid.IntRange(0, 3).Draw(rt, "keepWide") != 0 {
 					ntx = 12
+				}
+				if ntx >= 23 {
+					c.Labelf("block-with-%d-transactions", ntx)
 				}
 				var txs []core.Transaction
 				var rcs []*core.TransactionReceipt
@@ -204,6 +207,14 @@ func TestPropAccessorRoundTrip(t *testing.T) {
 					r := ch.DrawReceipt(rt, tx)
 					if rapid.IntRange(0, 5).Draw(rt, "nilres") == 0 {
 						r.ExecutionResources = nil
+					}
+					if len(r.Events) > 0 && rapid.IntRange(0, 39).Draw(rt, "wideEvents") == 0 {
+						// event counts around the CBOR array-header widths
+						for want := rapid.SampledFrom([]int{23, 24, 25, 255, 256, 257}).Draw(rt, "nevWide"); len(r.Events) < want; {
+							e := *r.Events[len(r.Events)%3%len(r.Events)]
+							r.Events = append(r.Events, &e)
+						}
+						c.Label("receipt-with-wide-event-list")
 					}
 					evCount += uint64(len(r.Events))
 					txs, rcs = append(txs, tx), append(rcs, r)
